@@ -443,7 +443,11 @@ Definition step (s : st) (l : label) : option (st * list ev) :=
       end
   | MOResume =>
       match opn s with
-      | Some (OWoken true) => Some (set_opn (set_cst (set_pl s PSpawned) Open) None, [])   (* ping loop spawned; _state = Open *)
+      | Some (OWoken true) =>
+          match cst s with
+          | Closed => Some (set_opn s None, [])   (* shut down meanwhile: _OpenImpl raises; the spawned ping loop exits at once *)
+          | _ => Some (set_opn (set_cst (set_pl s PSpawned) Open) None, [])   (* ping loop spawned; _state = Open *)
+          end
       | Some (OWoken false) => Some (set_opn s None, [])
       | _ => None
       end
